@@ -81,6 +81,7 @@ class World:
         self.restarts = 0
         self.evictions = 0
         self.virtual_s = 0.0
+        self.on_req = None
         self.reseed(0)
 
     def reseed(self, salt):
@@ -161,20 +162,25 @@ class World:
             tb = traceback.format_exc(limit=-6)
             self.errors.append((method, target, tb))
             r = server.Resp(500, [("X-Sim-Exception", type(e).__name__)], tb.encode("utf-8", "replace"))
-        if r is not None and r.status == 207 and method in ("PUT", "POST", "DELETE", "MKCOL", "MKCALENDAR", "GET", "HEAD"):
+        if r is not None and r.status == 207:
             # a DAV:error is delivered as a one-response multistatus whose
             # inner status is the outcome of the request
-            inner = _inner_status(r.body)
+            inner = _inner_status(r.body, need_error=method not in ("PUT", "POST", "DELETE", "MKCOL", "MKCALENDAR", "GET", "HEAD"))
             if inner is not None:
                 r.outer_status = 207
                 r.status = inner
+        if self.on_req is not None:
+            import hashlib
+
+            self.on_req("req", method, target, r.status if r is not None else None,
+                        hashlib.sha1(r.body or b"").hexdigest()[:12] if r is not None else None, FS.mut_seq)
         if r is not None and r.status >= 500 and r.status != 507:
             if len(self.errors) < 50:
                 self.errors.append((method, target, (r.body or b"")[-600:].decode("utf-8", "replace")))
         return r
 
 
-def _inner_status(body):
+def _inner_status(body, need_error=False):
     from xml.etree import ElementTree as ET
 
     try:
@@ -185,6 +191,8 @@ def _inner_status(body):
         return None
     rs = [e for e in root if e.tag == "{DAV:}response"]
     if len(rs) != 1:
+        return None
+    if need_error and not any(c.tag == "{DAV:}error" for c in rs[0]):
         return None
     for c in rs[0]:
         if c.tag == "{DAV:}status":
